@@ -149,7 +149,17 @@ func genbankDefinitionParser(gb *GenBank, depth int) pars.Parser {
 func genbankAccessionParser(gb *GenBank, depth int) pars.Parser {
 	parser := genbankGenericFieldParser("ACCESSION", depth)
 	return parser.Map(func(result *pars.Result) error {
-		gb.Fields.Accession = string(result.Token)
+		s := string(result.Token)
+		if i := strings.Index(s, " REGION: "); i >= 0 {
+			// written by GenBank.String for a sliced record
+			if loc, err := gts.AsLocation(s[i+len(" REGION: "):]); err == nil {
+				if r, ok := loc.(gts.Ranged); ok {
+					gb.Fields.Region = gts.Segment{r.Start, r.End}
+					s = s[:i]
+				}
+			}
+		}
+		gb.Fields.Accession = s
 		return nil
 	})
 }
